@@ -15,6 +15,13 @@ Example C05_ex_missing_key :
   sizeof (CFixedSized (XItem (XRoot RThis) (KName [x6e])) CGreedyBytes) (top_ctx [] MSize) [] = Err ESizeof (Some []) /\\
   sizeof (CStruct [CRenamed [x61] (CBytes (XItem (XItem (XRoot RThis) (KName [x5f])) (KName [x71])))]) (top_ctx [] MSize) [] = Err ESizeof (Some [[x61]]).
 Proof. repeat split; vm_compute; reflexivity. Qed.
+(* known finding K10, reproduced by the model (exactness is REFUTED outside the closed fragment): a Pointer inside a Prefixed writes beyond the
+   sequential part; sizeof adds up 1 + 1 + 0 = 2, build emits the length byte and the six bytes of the scratch buffer *)
+Example C05_ex_K10_refutes_exactness_outside_the_fragment :
+  let c := CPrefixed (CFormat Big FB) (CStruct [CRenamed [x61] (CFormat Big FB); CRenamed [x66] (CPointer (XConst (VInt 4)) (CFormat Big FH))]) false in
+  sizeof c (top_ctx [] MSize) [] = Ok 2%Z /\\
+  (exists r, build_bytes c (VDict [([x61], VInt 1); ([x66], VInt 2)]) [] = Ok (r, [x06; x01; x00; x00; x00; x00; x02])).
+Proof. split; [vm_compute; reflexivity|eexists; vm_compute; reflexivity]. Qed.
 Example C05_ex_answers :
   sizeof (CStruct [CRenamed [x61] (CFormat Big FH); CRenamed [x62] (CArray (XConst (VInt 3)) (CFormat Little FL))]) (top_ctx [] MSize) [] = Ok 14%Z.
 Proof. vm_compute; reflexivity. Qed.
